@@ -4,6 +4,8 @@ from vf.props import infer
 
 def run(ck):
     infer.run_prop(ck, "C04", infer.KS_FULL)
+    if ck.tier == "thorough":
+        infer.suite_as_workload(ck, "C04")
     for p in ("path_typed_dict_merge", "path_all_equal", "path_all_lists", "path_mixed", "path_oversize_fallback", "path_empty"):
         ck.need(p, 50, "shrink_types path never (or hardly) reached")
     ck.need("membership_judgements", 20000)
